@@ -36,8 +36,10 @@ def rand_slice(rng, N, M, link_is_right, kind="random"):
             "S21": m2j(rand_matrix(rng, N, N, tot)), "S22": m2j(rand_matrix(rng, N, M, tot))}
 
 
-def build(slices, batched):
-    """list of slice dicts -> S_matrix (3-D blocks when batched, 2-D otherwise)"""
+def build(slices, batched, dims=None):
+    """list of slice dicts -> S_matrix (3-D blocks when batched, 2-D otherwise); an EMPTY batch needs dims = (N, M)"""
+    if not slices:
+        return S_matrix(dims[0], dims[1], ns=0)
     N, M = slices[0]["N"], slices[0]["M"]
     if batched:
         S = S_matrix(N, M, ns=len(slices))
@@ -76,6 +78,12 @@ def observed_slices(S):
     N, M = S.N, S.M
     arr = [np.asarray(S.S11), np.asarray(S.S12), np.asarray(S.S21), np.asarray(S.S22)]
     shapes = [(M, N), (M, M), (N, N), (N, M)]
+    if all(a.ndim == 3 and a.shape[0] == 0 for a in arr):
+        # an empty batch: no slices, but every block still has its two trailing dimensions
+        for a, sh in zip(arr, shapes):
+            if a.shape[1:] != sh:
+                raise ValueError(f"block shape {a.shape} != (0,) + {sh}")
+        return []
     ns = 1
     for a, sh in zip(arr, shapes):
         if a.ndim == 3:
@@ -139,13 +147,22 @@ class AddStream(Stream):
                     if rng.random() < 0.5:      # the mirrored situation
                         a_["S12"], b_["S21"] = b_["S21"], a_["S12"]
             descs.append({"A": A, "B": B, "batched": batched})
+        # the empty batch (a sweep of no points): the result is the empty stack with the dimensions of the join
+        for (N, K, M) in [(1, 1, 1), (2, 1, 0), (0, 2, 1), (1, 2, 2)]:
+            descs.append({"A": [], "B": [], "batched": True, "dims": [N, K, M]})
         return descs
 
     def run(self, d):
-        A = build(d["A"], d["batched"])
-        B = build(d["B"], d["batched"])
+        if d.get("dims"):
+            N, K, M = d["dims"]
+            A, B = build([], True, (N, K)), build([], True, (K, M))
+        else:
+            A = build(d["A"], d["batched"])
+            B = build(d["B"], d["batched"])
         try:
             C = A.add(B)
+            if d.get("dims") and (C.N, C.M) != (d["dims"][0], d["dims"][2]):
+                raise ValueError("dimensions of the empty join")
             # the documented full-matrix view of the result: [[S11, S12], [S21, S22]] (and its determinant)
             if np.asarray(C.S11).ndim == 2:
                 full = np.vstack([np.hstack([C.S11, C.S12]), np.hstack([C.S21, C.S22])])
@@ -162,6 +179,8 @@ class AddStream(Stream):
                    obs))
 
     def nontrivial(self, d):
+        if not d["A"]:
+            return False
         a, b = d["A"][0], d["B"][0]
         if a["M"] == 0 or a["M"] != b["N"]:
             return False
@@ -169,6 +188,8 @@ class AddStream(Stream):
         return nz(a["S12"]) and nz(b["S21"])
 
     def classify(self, d):
+        if not d["A"]:
+            return "empty_batch"
         a, b = d["A"][0], d["B"][0]
         tag = "mismatch" if a["M"] != b["N"] else f"K{a['M']}"
         return f"{tag}/ns{len(d['A'])}x{len(d['B'])}/{'3d' if d['batched'] else '2d'}"
@@ -186,8 +207,8 @@ class AddStream(Stream):
     def py_repro(self, d):
         return ("import sys; sys.path.insert(0,'/verif/harness'); import c18, json\n"
                 f"d=json.loads({json_dumps(d)!r})\n"
-                "A=c18.build(d['A'],d['batched']); B=c18.build(d['B'],d['batched']); C=A.add(B)\n"
-                "print(C.S11, C.S12, C.S21, C.S22)\n")
+                "dm=d.get('dims'); A=c18.build(d['A'],d['batched'],dm and dm[:2]); B=c18.build(d['B'],d['batched'],dm and dm[1:])\n"
+                "C=A.add(B); print(C.S11, C.S12, C.S21, C.S22)\n")
 
 
 def json_dumps(d):
